@@ -28,7 +28,8 @@ def gen_trial(rng):
         t = recvfeed.gen_trial(rng, 'wf')
         e = [s['eph'] for s in t['srcs']]
         restarted = any(len({sd for sd, _, _ in pubs}) > 1 for pubs in t['published'])     # an ephemeral source that closes and restarts: outside EStream (ids strictly increasing)
-        if any(x == 0 for x in e) and any(e) and not t['balance'] and not restarted:
+        varying = any(len({tuple(T) for _, _, T in pubs}) > 1 for pubs in t['published'])      # a source whose frames do not all carry the same topics: outside the streams of the theorems
+        if any(x == 0 for x in e) and any(e) and not t['balance'] and not restarted and not varying:
             t['state_mode'] = 'none'
             return t
     raise RuntimeError('no join-eph trial drawn')
